@@ -225,6 +225,11 @@ def run(ctx, eng):
            'self._data_to_send = bytearray()', node=fi.node)
     ctx.assume('events (as opposed to frames) reported on a closed '
                'connection are outside this property')
+    cm.include(ctx, eng, 'C17', lambda o: o.rule == 'ESC',
+               'a connection error closes the connection: whatever a peer '
+               'sends that the library refuses leaves receive_data as a '
+               'ProtocolError (which is answered with GOAWAY and closes); an '
+               'exception of another kind leaves the connection open')
     # sending GOAWAY closes: every path that builds a GoAwayFrame in a
     # public call or in the error path has fed SEND_GOAWAY to the
     # connection machine (a GOAWAY that leaves the machine open lets every
